@@ -626,3 +626,188 @@ mod tests {
         assert_eq!(state.allocation_to_queue.len(), 0);
     }
 }
+
+/// Verification hook (feature `verif`): a read-only, plain-data snapshot of the autoalloc
+/// state (queues, limiter fields, allocations, the `allocation_to_queue` index).
+/// Collections are emitted in the iteration order of the real containers.
+#[cfg(feature = "verif")]
+pub mod verif {
+    use super::*;
+
+    #[derive(Debug, Clone, PartialEq, Eq, Hash, serde::Serialize)]
+    pub struct LimiterSnap {
+        pub delays_ms: Vec<u64>,
+        pub current_delay: usize,
+        /// `now_monotonic() - last_submission` in ms, if a submission was ever attempted
+        pub since_last_submission_ms: Option<u64>,
+        pub allocation_fails: u64,
+        pub max_allocation_fails: u64,
+        pub submission_fails: u64,
+        pub max_submission_fails: u64,
+    }
+
+    #[derive(Debug, Clone, PartialEq, Eq, Hash, serde::Serialize)]
+    pub struct LostSnap {
+        pub worker: u32,
+        pub reason: String,
+        pub lifetime_ms: u64,
+    }
+
+    #[derive(Debug, Clone, PartialEq, Eq, Hash, serde::Serialize)]
+    pub enum AllocStateSnap {
+        Queued {
+            status_error_count: u32,
+        },
+        Running {
+            connected: Vec<u32>,
+            disconnected: Vec<LostSnap>,
+            status_error_count: u32,
+        },
+        Finished {
+            disconnected: Vec<LostSnap>,
+        },
+        FinishedUnexpectedly {
+            connected: Vec<u32>,
+            disconnected: Vec<LostSnap>,
+            started: bool,
+            failed: bool,
+        },
+    }
+
+    #[derive(Debug, Clone, PartialEq, Eq, Hash, serde::Serialize)]
+    pub struct AllocSnap {
+        pub id: String,
+        pub target_worker_count: u64,
+        pub state: AllocStateSnap,
+    }
+
+    #[derive(Debug, Clone, PartialEq, Eq, Hash, serde::Serialize)]
+    pub struct QueueSnap {
+        pub id: u32,
+        pub active: bool,
+        pub backlog: u32,
+        pub max_workers_per_alloc: u32,
+        pub max_worker_count: Option<u32>,
+        pub timelimit_ms: u64,
+        /// Debug rendering of the known worker resources, if any
+        pub worker_resources: Option<String>,
+        pub limiter: LimiterSnap,
+        pub allocations: Vec<AllocSnap>,
+    }
+
+    #[derive(Debug, Clone, PartialEq, Eq, Hash, serde::Serialize)]
+    pub struct AutoAllocSnap {
+        pub queues: Vec<QueueSnap>,
+        pub allocation_to_queue: Vec<(String, u32)>,
+        pub inactive_directories: usize,
+    }
+
+    fn lost(d: &DisconnectedWorkers) -> Vec<LostSnap> {
+        d.workers
+            .iter()
+            .map(|(w, details)| LostSnap {
+                worker: w.as_num(),
+                reason: format!("{:?}", details.reason),
+                lifetime_ms: details.lifetime.as_millis() as u64,
+            })
+            .collect()
+    }
+
+    fn workers(s: &Set<WorkerId>) -> Vec<u32> {
+        s.iter().map(|w| w.as_num()).collect()
+    }
+
+    impl RateLimiter {
+        pub fn verif_snapshot(&self) -> LimiterSnap {
+            let now = now_monotonic();
+            LimiterSnap {
+                delays_ms: self
+                    .submission_delays
+                    .iter()
+                    .map(|d| d.as_millis() as u64)
+                    .collect(),
+                current_delay: self.current_delay,
+                since_last_submission_ms: self
+                    .last_submission
+                    .map(|t| now.saturating_duration_since(t).as_millis() as u64),
+                allocation_fails: self.allocation_fails,
+                max_allocation_fails: self.max_allocation_fails,
+                submission_fails: self.submission_fails,
+                max_submission_fails: self.max_submission_fails,
+            }
+        }
+    }
+
+    impl AutoAllocState {
+        pub fn verif_snapshot(&self) -> AutoAllocSnap {
+            AutoAllocSnap {
+                queues: self
+                    .queues
+                    .iter()
+                    .map(|(id, q)| QueueSnap {
+                        id: *id,
+                        active: q.state.is_active(),
+                        backlog: q.info.backlog(),
+                        max_workers_per_alloc: q.info.max_workers_per_alloc(),
+                        max_worker_count: q.info.max_worker_count(),
+                        timelimit_ms: q.info.timelimit().as_millis() as u64,
+                        worker_resources: q.worker_resources.as_ref().map(|r| format!("{r:?}")),
+                        limiter: q.rate_limiter.verif_snapshot(),
+                        allocations: q
+                            .allocations
+                            .iter()
+                            .map(|(key, a)| {
+                                debug_assert_eq!(key, &a.id);
+                                AllocSnap {
+                                    id: a.id.clone(),
+                                    target_worker_count: a.target_worker_count,
+                                    state: match &a.status {
+                                        AllocationState::Queued { status_error_count } => {
+                                            AllocStateSnap::Queued {
+                                                status_error_count: *status_error_count,
+                                            }
+                                        }
+                                        AllocationState::Running {
+                                            connected_workers,
+                                            disconnected_workers,
+                                            status_error_count,
+                                            ..
+                                        } => AllocStateSnap::Running {
+                                            connected: workers(connected_workers),
+                                            disconnected: lost(disconnected_workers),
+                                            status_error_count: *status_error_count,
+                                        },
+                                        AllocationState::Finished {
+                                            disconnected_workers,
+                                            ..
+                                        } => AllocStateSnap::Finished {
+                                            disconnected: lost(disconnected_workers),
+                                        },
+                                        AllocationState::FinishedUnexpectedly {
+                                            connected_workers,
+                                            disconnected_workers,
+                                            started_at,
+                                            failed,
+                                            ..
+                                        } => AllocStateSnap::FinishedUnexpectedly {
+                                            connected: workers(connected_workers),
+                                            disconnected: lost(disconnected_workers),
+                                            started: started_at.is_some(),
+                                            failed: *failed,
+                                        },
+                                    },
+                                }
+                            })
+                            .collect(),
+                    })
+                    .collect(),
+                allocation_to_queue: self
+                    .allocation_to_queue
+                    .iter()
+                    .map(|(a, q)| (a.clone(), *q))
+                    .collect(),
+                inactive_directories: self.inactive_allocation_directories.len(),
+            }
+        }
+    }
+}
